@@ -10,16 +10,20 @@ import (
 	"verifharness/props/c02"
 	"verifharness/props/c08"
 	"verifharness/props/c09"
+	"verifharness/props/c10"
 	"verifharness/props/c11"
 	"verifharness/props/c13"
+	"verifharness/props/c18"
 )
 
 var checks = map[string]func(*core.Ctx) int{
 	"C02": c02.Run,
 	"C08": c08.Run,
 	"C09": c09.Run,
+	"C10": c10.Run,
 	"C11": c11.Run,
 	"C13": c13.Run,
+	"C18": c18.Run,
 }
 
 func main() {
